@@ -67,6 +67,12 @@ def _fn_dict(v):
     return {"value": v * 2.0, "tag": f"item-{v}", "pad": "x" * 8}
 
 
+def _fn_optional(v):
+    """A function for which 'no result' (None) is a legitimate result for some inputs."""
+    _mark(v)
+    return None if int(round(v - 0.5)) % 2 == 1 else {"value": v * 3.0, "tag": f"opt-{v}"}
+
+
 def _fn_frame(v):
     import pandas as pd
 
@@ -156,14 +162,14 @@ def run_cached(kind, keys, cache_dir, *, parallel=False, max_workers=2, variant=
     cache = None if cache_dir is None else Cache(tmp_dir=Path(cache_dir))
     if cache is not None and flavor == "json":  # a user-supplied naming / storage scheme
         cache = Cache(tmp_dir=Path(cache_dir), name_fn=_json_name, load_fn=_json_load, save_fn=_json_save)
-    if kind in ("dict", "frame"):
-        fn = _fn_dict if kind == "dict" else _fn_frame
+    if kind in ("dict", "frame", "optional"):
+        fn = {"dict": _fn_dict, "frame": _fn_frame, "optional": _fn_optional}[kind]
         res = parallelise(fn, list(zip(keys, _values(keys, variant, full_keys), strict=True)), cache=cache, parallel=parallel, max_workers=max_workers)
         if [k for k, _v in res] != list(keys):
             raise AssertionError(f"keys out of order: {[k for k, _ in res]}")
         if raw is not None:
             raw.update({repr(k): v for k, v in res})
-        if kind == "dict":
+        if kind in ("dict", "optional"):
             return {repr(k): v for k, v in res}
         return {repr(k): v.to_dict() for k, v in res}
     # scan.time_course over a parameter column: keys are the row labels of the scan table
@@ -276,6 +282,8 @@ def check_history(case):
             elif op == "edit-returned":
                 # the caller post-processes what the last run returned, in place
                 for obj in last_raw.values():
+                    if obj is None:
+                        continue
                     if isinstance(obj, dict):
                         obj["value"] = -1.0
                         obj["tag"] = "edited"
@@ -453,7 +461,7 @@ def _run_single(kind, keys, pos, cache_dir):
     """Run the real caching code for the key at `pos` only (same value it has in the full run)."""
     from mxlpy.parallel import Cache, parallelise
 
-    fn = _fn_dict if kind == "dict" else _fn_frame
+    fn = {"dict": _fn_dict, "optional": _fn_optional}.get(kind, _fn_frame)
     vals = values_for(keys)
     parallelise(fn, [(keys[pos], vals[pos])], cache=Cache(tmp_dir=Path(cache_dir)), parallel=False)
 
@@ -503,7 +511,7 @@ def _key(k):
 def generate(tier):
     cases = []
     combos = [("ints", "dict"), ("strs", "dict"), ("float", "dict"), ("tuples", "dict"), ("collide", "dict"), ("ints", "frame"), ("tuples", "simulation"),
-              ("floats-one-int", "dict"), ("dotted", "dict"), ("tuple-floats", "dict")]
+              ("floats-one-int", "dict"), ("dotted", "dict"), ("tuple-floats", "dict"), ("ints", "optional"), ("strs", "optional")]
     if tier == "thorough":
         combos += [("ints", "simulation"), ("strs", "frame"), ("tuples", "frame"), ("collide", "frame")]
     for ks, kind in combos:
@@ -527,7 +535,8 @@ def generate(tier):
     # operation histories on one directory in one process; every history ends with a run (the observation)
     runs = [o for o in HIST_OPS if o.startswith("run")]
     depth = 4 if tier == "quick" else 5
-    for kind, ks in (("dict", "ints"), ("frame", "strs"), ("simulation", "ints"), ("dict", "floats-one-int"), ("frame", "dotted"), ("simulation", "tuple-floats")):
+    for kind, ks in (("dict", "ints"), ("frame", "strs"), ("simulation", "ints"), ("dict", "floats-one-int"), ("frame", "dotted"), ("simulation", "tuple-floats"),
+                     ("optional", "strs")):
         for n in range(1, depth + 1):
             if kind == "simulation" and n > depth - 1:
                 continue
